@@ -59,21 +59,29 @@ Proof.
 Qed.
 Lemma tr_push_res : forall m v v', tr_push m v = Some v' ->
   v' = v \/ (exists a b, v = Locked a /\ v' = Locked b).
-Proof. intros m v v' H. destruct v; cbn in H; inversion H; subst; auto. right. eauto. Qed.
+Proof. intros m v v' H. unfold tr_push in H. inversion H. auto. Qed.
 
 Ltac vac := try (intros; discriminate).
 
-Lemma own_pw_deliver : forall s s' r T ks x, invT s T -> stepr s (EPwDeliver r T ks x) = Ok s' -> invT s' T.
+Lemma pw_deliver_core : forall b s' r T ks x p a o m f secs,
+  invT b T -> In (EPwSend r T p ks a o m f secs) (s_sent b) ->
+  (forall mm oo, x = PwOk mm oo -> oo <> 0 ->
+     exists r0 p0 ks0 a0 m0 f0 secs0, In (EPwSend r0 T p0 ks0 a0 true m0 f0 secs0) (s_sent b)) ->
+  match x with
+  | PwOk mm oo => if oo =? 0 then step_keys (add_dlv b (EPwReply r T ks x)) T ks (tr_pw mm)
+                  else step_keys (add_dlv b (EPwReply r T ks x)) T ks (tr_1pc oo)
+  | _ => Some (add_dlv b (EPwReply r T ks x))
+  end = Some s' ->
+  invT s' T.
 Proof.
-  intros s s' r T ks x [G I] H. cbn [stepr] in H. unfold step_pw_deliver in H. chks H.
-  apply sent_by_In in C. destruct C as [e [Ce Cm]]. destruct e; try discriminate. b2p. beq. subst.
+  intros s s' r T ks x p a o m f secs [G I] Ce C1pc H.
   assert (HS : cn (getc s T) FPwSent <> 0) by (eapply (g_pwsent_cnt _ _ G); eauto).
   assert (N6 : forall r' ks' x', EPwReply r T ks x = EPwReply r' T ks' x' ->
                exists p a o m f secs, In (EPwSend r' T p ks' a o m f secs) (s_sent s)).
   { intros r' ks' x' E. inversion E. subst. eauto 10. }
   destruct x as [mm oo | kd |].
   - destruct (N.eq_dec oo 0) as [-> | Ho].
-    + cbn [N.eqb] in H. destruct (step_keys _ _ _ _) as [s2 |] eqn:E; try discriminate. okinv H.
+    + cbn [N.eqb] in H. rename H into E.
       pose proof (step_keys_char _ _ _ _ _ _ (tr_pw_ok mm) (tr_pw_idem mm) (tr_pw_total mm) E) as Ch.
       assert (D : dshape s s' T (EPwReply r T ks (PwOk mm 0))) by (eapply dshape_keys; eauto; apply tr_pw_ok).
       assert (N1 : forall r' ks' m' o', EPwReply r T ks (PwOk mm 0) = EPwReply r' T ks' (PwOk m' o') ->
@@ -92,12 +100,9 @@ Proof.
            apply tr_pw_res in A'. tauto.
         -- intros k r' ks' m' o' A E' Hk. inversion E'. subst. destruct (Ch k) as [[_ A'] | [A' _]]; [| contradiction].
            apply tr_pw_res in A'. tauto.
-    + apply N.eqb_neq in Ho. rewrite Ho in *. cbn [orb] in C0. apply N.eqb_neq in Ho.
-      apply sent_by_In in C0. destruct C0 as [e [Ce' Cm']]. destruct e; try discriminate.
-      match type of Cm' with (if ?bb then _ else _) = true => destruct bb; try discriminate end.
-      b2p. subst.
+    + destruct (C1pc mm oo eq_refl Ho) as [r0 [p0 [ks0 [a0 [m0 [f0 [secs0 Ce']]]]]]].
+      apply N.eqb_neq in Ho. rewrite Ho in H. apply N.eqb_neq in Ho. rename H into E.
       assert (HT1 : cn (getc s T) FTried1 <> 0) by (eapply (g_1pc_sent _ _ G); eauto).
-      destruct (step_keys _ _ _ _) as [s2 |] eqn:E; try discriminate. okinv H.
       pose proof (step_keys_char _ _ _ _ _ _ (tr_1pc_ok oo) (tr_1pc_idem oo) (tr_1pc_total oo) E) as Ch.
       assert (D : dshape s s' T (EPwReply r T ks (PwOk mm oo))) by (eapply dshape_keys; eauto; apply tr_1pc_ok).
       split.
@@ -105,14 +110,42 @@ Proof.
         intros r' ks' m' o' E'. inversion E'. subst. split; auto. intros k Hk.
         destruct (Ch k) as [[_ A] | [A _]]; [| contradiction]. apply tr_1pc_res in A. auto.
       * intros Hh Hc. exfalso. rewrite (dl_classic _ _ _ _ D) in Hc. destruct Hc as [_ [B _]]. unfold F in B. congruence.
-  - okinv H. pose proof (dshape_nokeys s (EPwReply r T ks (PwErr kd)) T) as D. split.
+  - inversion H. subst s'. pose proof (dshape_nokeys s (EPwReply r T ks (PwErr kd)) T) as D. split.
     + apply (deliver_ginv _ _ T _ D G); vac; auto.
     + intros Hh Hc. rewrite (dl_hasm _ _ _ _ D) in Hh. rewrite (dl_classic _ _ _ _ D) in Hc. specialize (I Hh Hc).
       apply (deliver_tinv _ _ T _ D I); vac; auto; intros; exfalso; rd; congruence.
-  - okinv H. pose proof (dshape_nokeys s (EPwReply r T ks PwRegion) T) as D. split.
+  - inversion H. subst s'. pose proof (dshape_nokeys s (EPwReply r T ks PwRegion) T) as D. split.
     + apply (deliver_ginv _ _ T _ D G); vac; auto.
     + intros Hh Hc. rewrite (dl_hasm _ _ _ _ D) in Hh. rewrite (dl_classic _ _ _ _ D) in Hc. specialize (I Hh Hc).
       apply (deliver_tinv _ _ T _ D I); vac; auto; intros; exfalso; rd; congruence.
+Qed.
+
+(* a record update that only touches the prewrite accounting / ghost / fallback flag *)
+Lemma invT_acct : forall s T c, invT s T ->
+  (forall f, rel f = true -> cn c f = cn (getc s T) f) -> c_lm c = c_lm (getc s T) -> c_pwok c = c_pwok (getc s T) ->
+  invT (setc s T c) T.
+Proof.
+  intros s T c HI H1 H2 H3. apply (frame_inv s (setc s T c) T); auto.
+  apply ag_setc_rel; auto. apply agree_refl.
+Qed.
+
+Lemma own_pw_deliver : forall s s' r T ks x, invT s T -> stepr s (EPwDeliver r T ks x) = Ok s' -> invT s' T.
+Proof.
+  intros s s' r T ks x HI H. cbn [stepr] in H. unfold step_pw_deliver in H. chks H.
+  apply sent_by_In in C. destruct C as [e [Ce Cm]]. destruct e; try discriminate. b2p. beq. subst.
+  match type of H with context [setc (add_dlv s ?ee) T ?cc] => set (c' := cc) in *; set (e' := ee) in * end.
+  change (setc (add_dlv s e') T c') with (add_dlv (setc s T c') e') in H.
+  assert (HB : invT (setc s T c') T).
+  { apply invT_acct; auto; unfold c'; destruct x as [mm oo | kd |];
+      repeat match goal with |- context [if ?bb then _ else _] => destruct bb end;
+      try (intros f0 Hf0; destruct f0; try discriminate Hf0; reflexivity); reflexivity. }
+  eapply (pw_deliver_core (setc s T c') s' r T ks x); [exact HB | exact Ce | |].
+  - intros mm oo -> Ho. apply N.eqb_neq in Ho. rewrite Ho in C0. cbn [orb] in C0.
+    apply sent_by_In in C0. destruct C0 as [e0 [Ce' Cm']]. destruct e0; try discriminate.
+    match type of Cm' with (if ?bb then _ else _) = true => destruct bb; try discriminate end.
+    b2p. subst. eauto 10.
+  - fold e'. destruct x as [mm oo | kd |]; [destruct (oo =? 0) | |];
+      try (destruct (step_keys _ _ _ _) as [s2 |] eqn:E; [| discriminate]); inversion H; reflexivity.
 Qed.
 
 (* counting a delivery of the commit-point request is itself invariant preserving *)
